@@ -21,6 +21,9 @@ type scriptedReader struct {
 	failAt int
 	// failHow: what the failing call transfers together with its error: "" / "nothing", "partial" (one byte), "all"
 	failHow string
+	// failErr: the error of the failing call (default errInjected); io.ErrUnexpectedEOF is what a
+	// broken connection or a truncated gzip stream reports - a failure, not an end of input
+	failErr error
 	Calls   []readCall
 }
 
@@ -64,6 +67,9 @@ func (r *scriptedReader) Read(p []byte) (n int, err error) {
 		}
 		copy(p, r.data[r.pos:r.pos+k])
 		r.pos += k
+		if r.failErr != nil {
+			return k, r.failErr
+		}
 		return k, errInjected
 	}
 	if avail == 0 {
